@@ -726,6 +726,16 @@ class C12(L1Prop):
                 ops += ["http POST as hyph=latest:1 hyph=1 snapshot b:8", f"backdate 1 {-(ahead * 86400 + 3600)}", "setcounter 1 0",
                         "dump 1", "http POST av hyph=latest:1 hyph=1 history b:4", "dump 1"]
             out.append(Case(f"c12-http-{k}", ops, {"cfg": [d, v], "http": True}, mode="http")); k += 1
+        # the real executable: the targets given by flag / environment variable are the ones the urgency is
+        # computed from
+        for j, (vsrc, ysrc, d, v) in enumerate([("flag:2", "default", 14, 2), ("env:3", "flag:1", 1, 3), ("both:1/9", "env:2", 2, 1), ("flag:0", "flag:0", 0, 0)][:sizes(tier, 3, 4)]):
+            ops = [f"boot listen=flag:1 dir=flag allow=none versions={vsrc} days={ysrc}", "http@0 POST av hyph=nil hyph=1 history b:1",
+                   "http@0 POST av hyph=latest:1 hyph=1 history b:2", "http@0 POST as hyph=latest:1 hyph=1 snapshot b:9"]
+            for i in range(5):
+                ops += ["dump 1", f"http@0 POST av hyph=latest:1 hyph=1 history b:3,{i}", "dump 1"]
+            ops += ["http@0 POST as hyph=latest:1 hyph=1 snapshot b:8", "backdate 1 90000", "dump 1", "http@0 POST av hyph=latest:1 hyph=1 history b:4", "dump 1",
+                    "backdate 1 180000", "dump 1", "http@0 POST av hyph=latest:1 hyph=1 history b:5", "dump 1", "kill"]
+            out.append(Case(f"c12-bin-{j}", ops, {"cfg": [d, v], "http": True, "only": "sqlite"}, mode="bin")); k += 1
         # counters produced by real histories, default and small targets
         nh = sizes(tier, 90, 400)
         for j in range(nh):
@@ -1472,6 +1482,11 @@ class C13(L1Prop):
             ops += ["reopen", "dumpall", "rows"]
             out.append(Case(f"c13-{k}", ops))
         out += l0_cases(rng, sizes(tier, 150, 1500))
+        # payloads at the very top of what the API accepts (100 MiB): both backends store and return them
+        for k, nb in enumerate([104857600, 104857599] if tier == "thorough" else [104857600]):
+            ops = ["ensure 1", "av 1 nil b:1", f"av 1 latest:1 z:{nb}:{k + 1}", "gcv 1 anc:1:1", f"as 1 latest:1 z:{nb}:{k + 3}", "gs 1",
+                   "av 1 latest:1 b:2", "reopen", "gcv 1 anc:1:2", "gs 1"]
+            out.append(Case(f"c13-max-{k}", ops, {"raw": False}))
         # the data directory has a name of the operator's choosing
         names = ["sync#2", "tasks%2Fwork", "really?", "a&b=c;d", "file:x?mode=ro", "it's", 'q"uote', "üñï-dir", "%", "x#", "-dash", "..dots..", "semi;colon"]
         for k in range(sizes(tier, 13, 60)):
@@ -1555,6 +1570,10 @@ class C18(L1Prop):
             def obs(g, step):
                 return ["dumpall", "rows"]
             ops, g = rand_prefix(rng, rng.randint(6, length), nc, k % 2 == 0, False, True, obs)
+            if k % 5 == 3:
+                # snapshot targets at their extremes: whatever the urgency arithmetic does with them, a request
+                # that is not answered with success has changed nothing
+                ops = [f"cfg {rng.choice([0, 0, 1, I64MAX])} {rng.choice([0, 0, 1, U32MAX])}"] + ops
             out.append(Case(f"c18-{k}", ["dumpall", "rows"] + ops))
         # a request that is refused because a storage statement failed half way leaves nothing behind
         for k in range(sizes(tier, 8, 60)):
@@ -1618,6 +1637,8 @@ class C18(L1Prop):
                 pure = True
             elif op.kind in ("av", "as") and resp_kind(ri) == "error" and case.meta.get("faults"):
                 pure = True          # refused: the storage step failed before anything was committed
+            elif op.kind in ("av", "as") and resp_kind(ri) in ("error", "panic") and not case.meta.get("faults"):
+                pure = True          # no storage fault was injected: a request that is not answered has changed nothing
             elif op.kind == "av" and resp_kind(ri) in ("conflict", "noclient"):
                 pure = True
             elif op.kind == "as":
